@@ -114,6 +114,10 @@ func hGenResult(T *sim.Tape, universe int, nsub int) *hResult {
 	for i := 0; i < nu; i++ {
 		res.units = append(res.units, hUnits[up[i]])
 	}
+	if T.Intn(30, "no-values") == 0 {
+		res.units = nil
+		return res
+	}
 	if T.Intn(20, "empty-unit") == 0 {
 		res.units[T.Intn(nu, "which-empty")] = "" // an API-built value without a unit: its .unit is the missing value
 	}
@@ -334,7 +338,7 @@ func hFieldText(f hField) string {
 }
 
 func hGenExprs(T *sim.Tape) []hExpr {
-	pool := []string{".name", ".fullname", ".config", "/size", "/align", "/gomaxprocs", "/poly", "goos", "pkg", "note", "cpu", "commit"}
+	pool := []string{".name", ".fullname", ".config", "/size", "/align", "/gomaxprocs", "/poly", "goos", "pkg", "note", "cpu", "commit", "/size2", "/al", "/fmt"} // "/size2" and "/al": one projected sub-name key's name is a strict prefix of another's
 	perm := T.Perm(len(pool), "keypool")
 	n := 2 + T.Intn(4, "nexprs")
 	var exprs []hExpr
@@ -620,6 +624,43 @@ func (hp *hProj) checkGet(c *hCheck, key Key, fl []hFlat, vals map[string]string
 		}
 		r.Fail("fields", "flattened-fields-differ", "%s projection %q: FlattenedFields = %v, model has %d fields %v", c.label, hp.expr.text, names, len(fl), fl)
 	}
+	// Fields() is the same list with the sub-fields of .config gathered under one tuple field, in expression order
+	var tops []string
+	var walked []*Field
+	for _, f := range hp.proj.Fields() {
+		if f.IsTuple {
+			tops = append(tops, f.Name+"{}")
+			walked = append(walked, f.Sub...)
+		} else {
+			tops = append(tops, f.Name)
+			walked = append(walked, f)
+			if len(f.Sub) != 0 {
+				r.Fail("fields", "fields-structure-differs", "%s projection %q: plain field %s has sub-fields", c.label, hp.expr.text, f.Name)
+			}
+		}
+	}
+	var wantTops []string
+	for _, f := range hp.expr.fields {
+		if f.key == ".config" {
+			wantTops = append(wantTops, ".config{}")
+		} else {
+			wantTops = append(wantTops, f.key)
+		}
+	}
+	if hp.expr.unit {
+		wantTops = append(wantTops, ".unit")
+	}
+	if strings.Join(tops, " ") != strings.Join(wantTops, " ") {
+		r.Fail("fields", "fields-structure-differs", "%s projection %q: Fields() = %v, the expression has %v", c.label, hp.expr.text, tops, wantTops)
+	}
+	if len(walked) != len(api) {
+		r.Fail("fields", "fields-structure-differs", "%s projection %q: Fields() holds %d leaves, FlattenedFields %d", c.label, hp.expr.text, len(walked), len(api))
+	}
+	for i := range walked {
+		if walked[i] != api[i] {
+			r.Fail("fields", "fields-structure-differs", "%s projection %q: leaf %d of Fields() is %s, FlattenedFields has %s", c.label, hp.expr.text, i, walked[i].Name, api[i].Name)
+		}
+	}
 	for i, f := range api {
 		if f.Name != fl[i].name {
 			r.Fail("fields", "flattened-fields-differ", "%s projection %q: flattened field %d is %q, model says %q", c.label, hp.expr.text, i, f.Name, fl[i].name)
@@ -842,6 +883,11 @@ func hRun(t *testing.T, r *sim.Run, prop string) {
 		r.Logf("expr %d: %q unit=%v", i, e.text, e.unit)
 	}
 	r.Logf("parse order %v (+%d other orders)", orders[0], len(orders)-1)
+	// the filter that fixed value lists imply is the caller's to apply; one that does not sees unlisted values in those fields
+	noFilter := T.Intn(8, "filter-not-applied") == 0
+	if noFilter {
+		r.Hit("results projected without applying the filter of the fixed value lists")
+	}
 	reuse := T.Bool("reuse-result-object")
 	if reuse {
 		r.Hit("one Result object reused in place for the whole stream")
@@ -907,7 +953,9 @@ func hRun(t *testing.T, r *sim.Run, prop string) {
 				delete(h.internal, k) // tool-internal values only on keys that fall into the .config group (the statement speaks of file configuration)
 			}
 		}
-		lastH = h
+		if len(h.units) > 0 {
+			lastH = h
+		}
 		r.Logf("result %d: %q cfg=%v units=%v", ri, h.name, h.cfg, h.units)
 		for ii, inst := range insts {
 			c := &hCheck{r: r, prop: prop, label: fmt.Sprintf("[parse order %v]", inst.order)}
@@ -918,9 +966,25 @@ func hRun(t *testing.T, r *sim.Run, prop string) {
 				}
 				res = h.fillResult(inst.scratch)
 			}
-			ok, _ := inst.filter.Apply(res)
-			if !ok {
-				continue // removed by a fixed value list
+			if len(h.units) == 0 {
+				// a result without measurements: nothing for ProjectValues to return, and later keys are none the wiser
+				for _, hp := range append(append([]*hProj(nil), inst.projs...), inst.residue) {
+					if hp.expr.unit {
+						if ks := hp.proj.ProjectValues(res); len(ks) != 0 {
+							r.Fail("key-identity", "projectvalues-length", "ProjectValues returned %d keys for a result without values", len(ks))
+						}
+						hp.tuple(w, h, "") // no key comes of it, but the file keys it carries are known to the .config group from now on
+
+					}
+				}
+				r.Hit("result without measurements passed to ProjectValues")
+				continue
+			}
+			if !noFilter {
+				ok, _ := inst.filter.Apply(res)
+				if !ok {
+					continue // removed by a fixed value list
+				}
 			}
 			if ii == 0 {
 				projected++
@@ -952,6 +1016,18 @@ func hRun(t *testing.T, r *sim.Run, prop string) {
 					k := hp.proj.Project(res)
 					hp.observe(c, w, h, k, "")
 					fmt.Fprintf(&joint, "%p|", hp.byTuple[hp.byKey[k]].k)
+					if T.Intn(8, "projectvalues-without-unit") == 0 {
+						// without a .unit field every measurement projects to the result's key
+						ks := hp.proj.ProjectValues(res)
+						if len(ks) != len(res.Values) {
+							r.Fail("key-identity", "projectvalues-length", "ProjectValues returned %d keys for %d values", len(ks), len(res.Values))
+						}
+						for _, k2 := range ks {
+							if k2 != k && prop == "C08" {
+								r.Fail("key-identity", "equal-tuples-different-keys", "%s projection %q (no .unit): ProjectValues gave %s for a measurement of a result that Project maps to %s", c.label, hp.expr.text, k2, k)
+							}
+						}
+					}
 				}
 			}
 			if ii == 0 && prop == "C08" {
